@@ -34,3 +34,29 @@ CLAIMED["C13"] = dict(
     text="Decides structural necessary conditions of timely sweeping: no wrap-around in deadline - wheelTime (ordering test or clamp, and the clamped value feeds slot selection); every unlinked timer is expired or re-added exactly once; expire only on deadline < wheel time with that time passed on; wheel clock advanced before sweeping and every level with a changed tick swept; maintenance replays writes (and the caller's task) before sweeping with a fresh clock sample; task replay schedules alive nodes / unschedules old ones. Does not decide the bucket/span/shift arithmetic, cascading or the 1.08 s bound.",
     note=TB + "Assumes a monotonic clock between sweeps.",
     ref="DESIGN.md §4 C13")
+PS = "path-sensitive effect summaries (PATHSUM: symbolic enumeration of every SSA path of the operation with callee/closure inlining, cells, a three-valued predicate store and role-recognised events) compared with an oracle table"
+CLAIMED["C01"] = dict(
+    technique="static analysis: " + PS + " (one-step refinement against the map-with-deadlines model)",
+    text="Decides a one-step refinement: for every operation (Set, SetIfAbsent, GetIfPresent, GetEntry, GetEntryQuietly, Compute, ComputeIfAbsent, ComputeIfPresent, Invalidate, SetExpiresAfter, SetRefreshableAfter), every abstract pre-state of the key (absent/live/expired-unswept), every callback outcome and configuration flag valuation, every enumerated path of the real code returns the model's result and leaves the table in the model's post-state. This is what the tests only sample; it is a necessary condition of sequential conformance. Does not decide whole sequences with interleaved eviction, BulkGet/InvalidateAll beyond one iteration, or iteration order.",
+    note=TB + "Assumes hashmap.Compute runs its callback once atomically (C15), HasExpired stable within one path, immutable configuration flags.",
+    ref="DESIGN.md §4 C01, Appendix B1")
+CLAIMED["C03"] = dict(
+    technique="static analysis: " + PS + " (expired rows of the refinement, deadline-move guard)",
+    text="Decides that on every path an expired-but-unswept entry is treated as absent by Set/SetIfAbsent/Invalidate/Compute*/reads (returned terms and callback arguments), and that an existing entry's expiration deadline is moved only on paths where it is known unexpired. Necessary conditions of 'never observable after its deadline'; clock movement during an operation is not decided.",
+    note=TB + "Assumes HasExpired(x, now) is stable within one path.",
+    ref="DESIGN.md §4 C03")
+CLAIMED["C06"] = dict(
+    technique="static analysis: " + PS + " (exactly-once atomic and deferred report per removed node, cause agreement), guarded-call table of runTask",
+    text="Decides per path: a node that leaves the table is reported exactly once atomically (inside the computation, its own key/value, truthful cause with the Expiration override) and exactly once deferred (one add/update/delete task enqueued or run once, or one direct notification without maintenance; eviction callback iff its removal happened); nothing is reported for unchanged tables; task cause equals atomic cause; runTask notifies once per update/delete. Does not decide conservation over histories.",
+    note=TB + "Assumes each enqueued task is replayed exactly once (C16) and Compute atomicity (C15).",
+    ref="DESIGN.md §4 C06, Appendix B2")
+CLAIMED["C09"] = dict(
+    technique="static analysis: " + PS + " (in-flight record cleared inside every mutating computation; installer decision table)",
+    text="Decides that every write/compute/invalidate/eviction clears the key's in-flight record inside the same bucket-locked computation that changes the mapping, and that the load installer installs/removes only on paths where its record was still registered (tested inside the computation), keeps on error or when superseded, and releases waiters once after the computation. The schedule quantifier is reduced to C15's atomicity.",
+    note=TB + "Assumes Compute atomicity per key (C15).",
+    ref="DESIGN.md §4 C09")
+CLAIMED["C20"] = dict(
+    technique="static analysis: " + PS + " (lookup-count table, load/eviction record guards), def-use census of loader dispatch",
+    text="Decides per path: the documented number of hit/miss records per operation with hit <=> live entry; exactly one load success/failure per dispatch (also on the re-panic path) with the right classification; loaders dispatched only through wrapLoad; eviction recorded once with the victim's weight iff the removal happened. Does not decide the striped adder's exactness under contention.",
+    note=TB,
+    ref="DESIGN.md §4 C20, Appendix B3")
